@@ -247,7 +247,9 @@ func c04RunSpell(c c04Spell) (o c04SpellObs) {
 	if c.scert {
 		sconf = cert.ServerConfig{Config: cert.Config{Certificate: cs.certPEM, PrivateKey: cs.keyPEM}}
 	}
-	if c.stls && !c.scert {
+	if c04FaultConf != nil {
+		sconf = *c04FaultConf // component `certfault` (c04_certfault.go): the endpoint's certificate configuration is given
+	} else if c.stls && !c.scert {
 		o.noserver = true // a TLS endpoint without a certificate does not start
 		return
 	}
